@@ -163,3 +163,131 @@ def r_safediv(idx, rep, rule="R-SAFEDIV", floor=8, unknown_ceiling=1):
                         "`%s` divides by `%s` (%s), which is exactly 0.0 for touching / coincident / axis-parallel placements of the declared domain, and %s: "
                         "the result is NaN/inf (ZeroDivisionError in compiled code) instead of a finite answer; normalise with norm_vector(.) or test the "
                         "magnitude first" % (u(node)[:80], dtxt, why, detail or "no test of that magnitude dominates the division"))
+
+
+def r_selected_component(idx, rep, rule="R-SELCOMP", floor=1):
+    rep.rule(rule, "a division by a vector component whose index is COMPUTED (`v[k]`, k a local) requires k to be selected as a non-zero "
+                   "component of that same vector: `np.where(v != 0)[0][..]` with a non-emptiness assertion, or `np.argmax(np.abs(v))`; "
+                   "argmax of the signed vector picks a zero component for directions without a positive entry (0/0 = NaN slips through every "
+                   "ordering test that follows)", floor=floor)
+    for m in idx.lib_modules():
+        if not m.name.startswith("distance3d.distance"):
+            continue
+        for f in m.functions.values():
+            params = set(f.params())
+            for node in ast.walk(f.node):
+                if not (isinstance(node, ast.BinOp) and isinstance(node.op, ast.Div)):
+                    continue
+                d = node.right
+                if not (isinstance(d, ast.Subscript) and isinstance(d.value, ast.Name) and isinstance(d.slice, ast.Name) and d.slice.id not in params):
+                    continue
+                vec, k = d.value.id, d.slice.id
+                key = "%s|division by a selected component of %s" % (f.key, stable_text(d.value, f.node))
+                where = "%s:%d" % (m.relpath, node.lineno)
+                defs = [v for v, pos in _defs(f, k) if pos is None]
+                ok, why = False, "index `%s` has %d definitions" % (k, len(defs))
+                if len(defs) == 1:
+                    v = defs[0]
+                    # np.argmax(np.abs(vec))
+                    if isinstance(v, ast.Call) and call_name(v) == "np.argmax" and v.args and isinstance(v.args[0], ast.Call) \
+                            and call_name(v.args[0]) in ("np.abs", "abs", "np.absolute") and u(v.args[0].args[0]) == vec:
+                        ok = True
+                    # K[0] with K = np.where(vec != 0.0)[0] and assert len(K) > 0
+                    elif isinstance(v, ast.Subscript) and isinstance(v.value, ast.Name):
+                        kd = [x for x, pos in _defs(f, v.value.id) if pos is None]
+                        if len(kd) == 1 and isinstance(kd[0], ast.Subscript) and isinstance(kd[0].value, ast.Call) and call_name(kd[0].value) == "np.where" \
+                                and kd[0].value.args and isinstance(kd[0].value.args[0], ast.Compare):
+                            t = ncmp(kd[0].value.args[0])
+                            nonzero = t is not None and t[0] == "!=" and vec in (u(t[1]), u(t[2])) and (is_const(t[1], 0) or is_const(t[2], 0) or is_const(t[1], 0.0) or is_const(t[2], 0.0))
+                            asserted = any(isinstance(a, ast.Assert) and v.value.id in {n.id for n in ast.walk(a.test) if isinstance(n, ast.Name)} for a in ast.walk(f.node))
+                            ok = nonzero and asserted
+                            why = "`%s` is not `np.where(%s != 0)[0]` guarded by an assertion" % (u(kd[0]), vec) if not ok else ""
+                        else:
+                            why = "`%s = %s` does not select a non-zero component of %s" % (k, u(v), vec)
+                    else:
+                        why = "`%s = %s` does not select a non-zero component of %s" % (k, u(v), vec)
+                rep.check(ok, rule, key, where,
+                          "`%s` divides by `%s[%s]` but %s: for a valid direction without a positive entry (or with exact zeros) the divisor is 0.0 and "
+                          "the quotient NaN — every later `<` / `>` test is then False and the unclamped value is returned" % (u(node)[:70], vec, k, why),
+                          "non-zero component selected")
+
+
+# ------------------------------------------------------------------------------------------------ sqrt domain
+def _nonneg(e, f, depth=0):
+    """'yes' when e is >= 0 by construction, 'no' when it is sign-indefinite by construction (a difference, an inner product of two
+    different vectors, a product with such a factor ...), None when unknown (parameters, callee results)"""
+    if isinstance(e, ast.Constant) and isinstance(e.value, (int, float)):
+        return "yes" if e.value >= 0 else "no"
+    if isinstance(e, ast.UnaryOp) and isinstance(e.op, ast.USub):
+        v = _nonneg(e.operand, f, depth)
+        return "no" if v in ("yes", "no") else None
+    if isinstance(e, ast.Call):
+        cn = call_name(e) or ""
+        if cn in ("abs", "np.abs", "math.fabs", "np.linalg.norm", "math.sqrt", "np.sqrt", "np.square"):
+            return "yes"
+        if cn in ("max", "np.maximum") and any(_nonneg(a, f, depth) == "yes" for a in e.args):
+            return "yes"
+        da = dot_args(e)
+        if da:
+            return "yes" if u(da[0]) == u(da[1]) else "no"
+        if cn in ("np.sum", "sum") and e.args:
+            return _nonneg(e.args[0], f, depth)
+        return None
+    if isinstance(e, ast.BinOp):
+        if isinstance(e.op, ast.Mult):
+            if u(e.left) == u(e.right):
+                return "yes"
+            l, r = _nonneg(e.left, f, depth), _nonneg(e.right, f, depth)
+            if l == "yes" and r == "yes":
+                return "yes"
+            return "no" if "no" in (l, r) and None not in (l, r) else None
+        if isinstance(e.op, ast.Pow) and isinstance(e.right, ast.Constant) and e.right.value == 2:
+            return "yes"
+        if isinstance(e.op, ast.Add):
+            l, r = _nonneg(e.left, f, depth), _nonneg(e.right, f, depth)
+            if l == "yes" and r == "yes":
+                return "yes"
+            return "no" if "no" in (l, r) else None
+        if isinstance(e.op, ast.Div):
+            l, r = _nonneg(e.left, f, depth), _nonneg(e.right, f, depth)
+            if l == "yes" and r == "yes":
+                return "yes"
+            return "no" if "no" in (l, r) and None not in (l, r) else None
+        if isinstance(e.op, ast.Sub):
+            return "no"       # a difference rounds below zero when both terms are (nearly) equal
+        return None
+    if isinstance(e, ast.Name) and depth < 4 and e.id not in f.params():
+        ds = [v for v, pos in _defs(f, e.id) if pos is None]
+        if not ds or len(ds) != len(_defs(f, e.id)):
+            return None
+        vs = [_nonneg(d, f, depth + 1) for d in ds]
+        if any(v == "no" for v in vs):
+            return "no"
+        return "yes" if all(v == "yes" for v in vs) else None
+    return None
+
+
+def r_sqrtdomain(idx, rep, rule="R-SQRTDOMAIN", modules=None, floor=10, unknown_ceiling=12, njit_only=False, sqrt_calls=("math.sqrt",)):
+    rep.rule(rule, "/".join(sqrt_calls) + " never sees a value that can round below zero: its argument is >= 0 by construction (sum of squares, dot(x,x), "
+                   "abs, max(., 0)) on every definition that reaches it; a bare difference such as c - b*b is negative by rounding for "
+                   "coincident / parallel inputs (interpreted: ValueError 'math domain error'; compiled: silent NaN)",
+             floor=floor, unknown_ceiling=unknown_ceiling)
+    for f in idx.all_functions():
+        if f.module.is_test or (modules is not None and not f.module.name.startswith(tuple(modules))) or (njit_only and not f.njit):
+            continue
+        k = 0
+        for c in ast.walk(f.node):
+            if isinstance(c, ast.Call) and call_name(c) in sqrt_calls and c.args:
+                k += 1
+                key = "%s|sqrt #%d" % (f.key, k)
+                where = "%s:%d" % (f.module.relpath, c.lineno)
+                v = _nonneg(c.args[0], f)
+                if v == "yes":
+                    rep.ok(rule, key, where, "argument >= 0 by construction")
+                elif v == "no":
+                    rep.bad(rule, key, where,
+                            "`%s`: on some definition that reaches it the argument is sign-indefinite by construction (a difference or a mixed-sign product, not wrapped in abs / max(., 0)); for coincident, "
+                            "parallel or touching inputs the two terms are equal up to rounding and the difference is a tiny NEGATIVE number: the interpreted "
+                            "library raises ValueError('math domain error') for math.sqrt, the compiled one and np.sqrt return NaN" % u(c)[:80])
+                else:
+                    rep.unknown(rule, key, where, "sign of `%s` not decided (parameter / callee result)" % u(c.args[0])[:60])
